@@ -64,6 +64,19 @@ CHECKS["C11"] = ("model_checking", _NEG_TECH,
     "TLC checks complementarity/agreement of the two tables on the whole bounded domain (2 contexts in thorough); a real requestor AE and a real acceptor AE negotiate every fourth TLC case plus random cases and both sides' accepted/rejected contexts and roles are compared.",
     "Trusted: as C10; role proposals (False, False) cannot be sent by the real requestor and are excluded here (covered by C10's raw requestor).", "§6 C11", "neg")
 
+_DIMSE_TECH = ("TLA+ Dimse spec (fragmenter, arbitrary regrouping, reassembler) and DimseMsg catalogue (PS3.7 message table with lemmas) model-checked by TLC; "
+               "every terminal behaviour / catalogue case TLC enumerates is run through the real primitive_to_message, encode_msg, decode_msg, message_to_primitive and dimse.send_msg "
+               "(S2C) and the observed PDV sequences and round trips are judged by the Trace_Dimse spec (C2S)")
+CHECKS["C15"] = ("model_checking", _DIMSE_TECH,
+    "Data set lengths 0..9 (14 thorough) x maxima {0,7,8,9,10,13} with every regrouping of up to 7 PDVs, realistic sizes around exact multiples for maxima 1030/16382/0, in-memory and file-backed data sets, and the maximum chosen by the real DIMSE provider for every (own, peer) maximum x role: PDV list length, order, last flags, exact reassembly.",
+    "Trusted: C-STORE-RQ as carrier message; regrouping of long messages limited to fixed patterns.", "§6 C15", "dimse")
+CHECKS["C16"] = ("model_checking", _DIMSE_TECH,
+    "Fragmentation behaviours of C15 plus every message type x data-set state (absent, empty, odd, even) and the public send_* API with empty and non-empty data sets and the service classes' response paths, observed at a wire tap that re-assembles with the real decoder: data set announced iff data set fragments are sent, message completed by the receiver.",
+    "Trusted: wire tap at dul.send_pdu; peer modelled by pynetdicom's own DIMSE decoder.", "§6 C16", "dimse")
+CHECKS["C17"] = ("model_checking", _DIMSE_TECH,
+    "All 23 messages x every subset of their optional/conditional parameters x data-set state x three value classes (minimum, maximum, typical; 1 and 3 element tag lists, tag 0) enumerated by TLC from the PS3.7 catalogue and round-tripped; command field compared with the catalogue.",
+    "Trusted: transcription of the PS3.7 parameter tables; values restricted to what the primitives accept; AE titles compared modulo padding.", "§6 C17", "dimse")
+
 NOT_YET = {}
 
 
